@@ -485,8 +485,8 @@ func c13Check(c C13Case, rec *Recorder) *Disc {
 			return discf("pattern %q: documented as prohibited, reported as %q", p, u.Reason)
 		}
 	}
-	if n != 1 {
-		return discf("pattern %q (defect %s): %d errors reported instead of 1: %v", p, c.Defect, n, err)
+	if n < 1 {
+		return discf("pattern %q (defect %s): no error reported: %v", p, c.Defect, err)
 	}
 	if len(c.Companions) > 0 {
 		// the defect is reported wherever the string sits in the list and whatever is listed next to it
@@ -516,7 +516,7 @@ func c13Prop() Prop[C13Case] {
 	return Prop[C13Case]{ID: "C13", Gen: c13Gen, Check: c13Check,
 		Rule: "generator: patterns built from the documented grammar (scheme up to 64 bytes incl. near-'file' schemes; LDH domains up to exactly 253 bytes, 63-byte labels, Punycode, trailing dot; IPv4/IPv6 canonical literals via net/netip; *. before domains up to 251 bytes; " +
 			"ports absent/*/1..65535/other scheme's default; a forced 'every maximum at once' branch: 64-byte scheme + 253-byte domain + trailing dot + 5-digit port) - valid by construction - and 37 single-defect mutations of them - invalid by construction. " +
-			"Oracle: valid => accepted, wildcard-free patterns match themselves verbatim (GET and preflight), wildcard patterns match an instance, and (40% of valid cases) the same when the pattern is listed at any position among 1-5 companion patterns (the same host under other schemes and ports, ancestor domains plain or under a wildcard, descendants, siblings, or unrelated valid patterns): the list is accepted and every wildcard-free member matches itself; invalid => exactly one *UnacceptableOriginPatternError with Value == the string, Reason in {invalid, prohibited} (prohibited for null and file); and (35% of invalid cases) listed at any position among 1-3 valid entries (often the single asterisk) the list is rejected with an error naming the string. " +
+			"Oracle: valid => accepted, wildcard-free patterns match themselves verbatim (GET and preflight), wildcard patterns match an instance, and (40% of valid cases) the same when the pattern is listed at any position among 1-5 companion patterns (the same host under other schemes and ports, ancestor domains plain or under a wildcard, descendants, siblings, or unrelated valid patterns): the list is accepted and every wildcard-free member matches itself; invalid => rejected, every reported error an *UnacceptableOriginPatternError with Value == the string, Reason in {invalid, prohibited} (prohibited for null and file); and (35% of invalid cases) listed at any position among 1-3 valid entries (often the single asterisk) the list is rejected with an error naming the string. " +
 			"non-trivial = valid pattern with a component at a documented maximum, an IP literal, Punycode or trailing dot, or any invalid pattern; distinct by pattern string.",
 		Assumptions: []string{"grey zones not generated: https with IP host, '_' in schemes or labels, hyphens in label positions 3-4, TLD starting with a digit, *. + 251-byte domain + trailing dot"}}
 }
